@@ -50,6 +50,12 @@ Theorem return_restores : forall limit st k st1, reach limit st ->
   step limit st (op_of k) = Ok st1 -> step limit st1 (undo_of k) = Ok st.
 Proof. intros limit st k st1 R H. exact (call_undo limit st k st1 (reach_good _ _ R) H). Qed.
 
+(* A nested render started by a host callable that swallows its error (optional blocks): whether it was admitted
+   and returned, or was refused, the state afterwards is the state before - a refused admission charges nothing and
+   refunds nothing. *)
+Theorem swallowed_refusal_is_noop : forall limit st ks, reach limit st -> exec_try limit st ks = Ok st.
+Proof. intros limit st ks R. exact (try_noop limit st ks (reach_good _ _ R)). Qed.
+
 (* recursion_terminates.  Along any chain of calls / frame pushes with no return in between the depth
    strictly increases with every edge ... *)
 Theorem descent_increases_depth : forall limit ops st st', 0 <= limit -> reach limit st ->
@@ -136,6 +142,7 @@ Print Assumptions nesting_bound.
 Print Assumptions admitted_within_limit.
 Print Assumptions accounting_never_traps.
 Print Assumptions return_restores.
+Print Assumptions swallowed_refusal_is_noop.
 Print Assumptions descent_increases_depth.
 Print Assumptions recursion_terminates.
 Print Assumptions levels_reached.
